@@ -54,16 +54,74 @@ pub enum Ph<E> {
     FiredI(core::result::Result<bool, E>),
     Stopped(bool, Option<E>, Cause<E>),
 }
-pub struct Mon<E> { pub ph: Ph<E>, pub bad: bool, pub idle_off: bool, pub ctl: int, pub mbx: int, pub id: Identity }
+pub struct Mon<E> { pub ph: Ph<E>, pub bad: bool, pub why: int, pub idle_off: bool, pub ctl: int, pub mbx: int, pub id: Identity }
 
 pub open spec fn mon_init<E>(ctl: int, mbx: int, id: Identity) -> Mon<E> {
-    Mon { ph: Ph::Init, bad: false, idle_off: false, ctl, mbx, id }
+    Mon { ph: Ph::Init, bad: false, why: 0, idle_off: false, ctl, mbx, id }
+}
+
+// Why the monitor went bad (recorded at the FIRST bad step; `bad` is absorbing), so that a violation is attributed to the
+// properties that rule stands for and to no others.
+pub open spec fn W_START_NOT_FIRST() -> int { 1 }      // on_start a second time / late
+pub open spec fn W_WORK_BEFORE_START() -> int { 2 }    // polling / handling / stopping before on_start completed
+pub open spec fn W_AFTER_STOP() -> int { 3 }           // anything after on_stop
+pub open spec fn W_CTL_SIGNAL_IGNORED() -> int { 4 }   // a consumed kill signal not followed by on_stop
+pub open spec fn W_CTL_CLOSED_IGNORED() -> int { 5 }   // "all strong references gone" observed, not followed by on_stop
+pub open spec fn W_ENVELOPE_NOT_HANDLED() -> int { 6 } // an envelope taken from the mailbox, its handler not run next
+pub open spec fn W_STOPMARK_IGNORED() -> int { 7 }     // stop marker / closed mailbox observed, not followed by on_stop
+pub open spec fn W_RUN_ERR_IGNORED() -> int { 8 }      // on_run returned Err, not followed by on_stop
+pub open spec fn W_POLL_ORDER() -> int { 9 }           // mailbox polled without a pending control poll first (or control twice)
+pub open spec fn W_IDLE_POLL() -> int { 10 }           // on_run polled before control+mailbox were pending, or after Ok(false)
+pub open spec fn W_HANDLED_WITHOUT_TAKE() -> int { 11 }// a handler run for something not just taken
+pub open spec fn W_STOP_WITHOUT_CAUSE() -> int { 12 }  // on_stop without one of the five causes
+pub open spec fn W_KILLED_FLAG() -> int { 13 }         // on_stop(killed) with killed != "a kill signal was consumed"
+pub open spec fn W_MODEL() -> int { 14 }               // event sequence the shim itself cannot produce
+
+/// which properties (by number) a reason stands for; an unknown reason blames every monitor property
+pub open spec fn blames(why: int, p: int) -> bool {
+    if why == 1 || why == 2 { p == 4 }
+    else if why == 3 { p == 4 || p == 7 }
+    else if why == 4 { p == 6 }
+    else if why == 5 { p == 7 }
+    else if why == 6 { p == 1 || p == 2 }
+    else if why == 7 { p == 7 || p == 2 || p == 1 }
+    else if why == 8 { p == 4 || p == 5 }
+    else if why == 9 { p == 6 }
+    else if why == 10 { p == 8 }
+    else if why == 11 { p == 1 || p == 2 }
+    else if why == 12 { p == 7 || p == 4 }
+    else if why == 13 { p == 4 || p == 6 }
+    else { true }
+}
+/// the monitor has not recorded a violation of property p
+pub open spec fn ok_for<E>(m: Mon<E>, p: int) -> bool { !(m.bad && blames(m.why, p)) }
+
+pub open spec fn why_of<E>(m: Mon<E>, e: Ev<E>) -> int {
+    if e is Started { W_START_NOT_FIRST() } else {
+    match m.ph {
+        Ph::Init => W_WORK_BEFORE_START(),
+        Ph::Stopped(_, _, _) => W_AFTER_STOP(),
+        Ph::FiredC(Obs::Signal) => if e is Stopped { W_KILLED_FLAG() } else { W_CTL_SIGNAL_IGNORED() },
+        Ph::FiredC(_) => if e is Stopped { W_KILLED_FLAG() } else { W_CTL_CLOSED_IGNORED() },
+        Ph::FiredM(Obs::Envelope(_)) => if e is Stopped { W_STOP_WITHOUT_CAUSE() } else { W_ENVELOPE_NOT_HANDLED() },
+        Ph::FiredM(_) => if e is Stopped { W_KILLED_FLAG() } else { W_STOPMARK_IGNORED() },
+        Ph::FiredI(Err(_)) => if e is Stopped { W_KILLED_FLAG() } else { W_RUN_ERR_IGNORED() },
+        Ph::Ran(_) => W_MODEL(),
+        _ => match e {
+            Ev::Poll(Src::Idle) => W_IDLE_POLL(),
+            Ev::Poll(_) => W_POLL_ORDER(),
+            Ev::Handled(_) => W_HANDLED_WITHOUT_TAKE(),
+            Ev::Stopped(_, _) => W_STOP_WITHOUT_CAUSE(),
+            Ev::RunDone(_) => W_IDLE_POLL(),
+            _ => W_MODEL(),
+        },
+    } }
 }
 
 /// The transition table *is* the formal statement of C04, C05, C06, C08 and the actor-side halves of
-/// C01, C02, C07.  `bad` is absorbing.
+/// C01, C02, C07.  `bad` is absorbing; `why` keeps the reason of the first bad step.
 pub open spec fn step<E>(m: Mon<E>, e: Ev<E>) -> Mon<E> {
-    let bad = Mon { bad: true, ..m };
+    let bad = Mon { bad: true, why: why_of(m, e), ..m };
     if m.bad { m } else {
     match e {
         // on_start first, exactly once
@@ -102,15 +160,16 @@ pub open spec fn step<E>(m: Mon<E>, e: Ev<E>) -> Mon<E> {
     } }
 }
 
-/// C04 + C05: what the value returned by run_actor_lifecycle says, against what the monitor saw.
+/// C05: what the value returned by run_actor_lifecycle says, against what the monitor saw.  Nothing is claimed here about a
+/// run whose monitor already went bad: that is reported, per property, by `result_ok_for`.
 pub open spec fn lifecycle_post<T: Actor>(args: T::Args, actor_ref: ActorRef<T>, r: ActorResult<T>) -> bool {
     match T::start_spec(args, actor_ref) {
         Err(e0) => r matches ActorResult::Failed { actor: None, error, phase: FailurePhase::OnStart, killed: false } && error == e0,
         Ok(_) => match r {
             ActorResult::Completed { actor, killed } =>
-                !actor.mon().bad && (actor.mon().ph matches Ph::Stopped(k, None, c) && k == killed && !(c is RunErr)),
+                actor.mon().bad || (actor.mon().ph matches Ph::Stopped(k, None, c) && k == killed && !(c is RunErr)),
             ActorResult::Failed { actor: None, .. } => false,
-            ActorResult::Failed { actor: Some(actor), error, phase, killed } => !actor.mon().bad && match phase {
+            ActorResult::Failed { actor: Some(actor), error, phase, killed } => actor.mon().bad || match phase {
                 FailurePhase::OnStart => false,
                 FailurePhase::OnStop => actor.mon().ph matches Ph::Stopped(k, Some(e), c) && k == killed && e == error && !(c is RunErr),
                 FailurePhase::OnRun => !killed && actor.mon().ph == Ph::<T::Error>::Stopped(false, None, Cause::RunErr(error)),
@@ -119,23 +178,48 @@ pub open spec fn lifecycle_post<T: Actor>(args: T::Args, actor_ref: ActorRef<T>,
         },
     }
 }
-
-pub open spec fn at_head<E>(m: Mon<E>) -> bool {
-    !m.bad && (m.ph is Head || m.ph is CM || m.ph is CMI || m.ph matches Ph::FiredI(Ok(_)))
-}
-pub open spec fn loop_inv<T: Actor>(actor: T, idle_enabled: bool, killed: bool) -> bool {
-    // idle_enabled is exactly "on_run has not returned Ok(false) yet": it is never cleared on Ok(true) (C08: on_run is run
-    // again when the actor is next idle) and always cleared on Ok(false)
-    at_head(actor.mon()) && !killed && (idle_enabled == !actor.mon().idle_off)
-        && (actor.mon().ph is CM ==> !idle_enabled)
-}
-pub open spec fn sel_post3<T: Actor>(actor: T,
-    out: Out3<Option<ControlSignal>, Option<MailboxMessage<T>>, core::result::Result<bool, T::Error>>) -> bool {
-    !actor.mon().bad && match out {
-        Out3::B0(v) => actor.mon().ph == Ph::<T::Error>::FiredC(vx_obs(&v)),
-        Out3::B1(v) => actor.mon().ph == Ph::<T::Error>::FiredM(vx_obs(&v)) && (v matches Some(m) ==> m.fits(actor.mon().mbx)),
-        Out3::B2(v) => actor.mon().ph == Ph::<T::Error>::FiredI(v),
+/// the monitor of the returned actor has recorded no violation of property p
+pub open spec fn result_ok_for<T: Actor>(r: ActorResult<T>, p: int) -> bool {
+    match r {
+        ActorResult::Completed { actor, .. } => ok_for(actor.mon(), p),
+        ActorResult::Failed { actor: Some(actor), .. } => ok_for(actor.mon(), p),
+        _ => true,
     }
+}
+
+// what must hold of the monitor phase between two passes of the loop, one clause per kind of unfinished business, so that
+// each is attributed to the property it stands for.  Together (when !bad): ph is Head, CM, CMI or FiredI(Ok(_)).
+pub open spec fn ph_started_not_stopped<E>(m: Mon<E>) -> bool { m.bad || !(m.ph is Init || m.ph is Stopped) }
+pub open spec fn ph_no_pending_control<E>(m: Mon<E>) -> bool { m.bad || !(m.ph is C || m.ph == Ph::<E>::FiredC(Obs::Signal)) }
+pub open spec fn ph_no_pending_close<E>(m: Mon<E>) -> bool {
+    m.bad || !((m.ph matches Ph::FiredC(o) && !(o is Signal)) || (m.ph matches Ph::FiredM(o) && !(o is Envelope)))
+}
+pub open spec fn ph_no_pending_envelope<E>(m: Mon<E>) -> bool { m.bad || !(m.ph matches Ph::FiredM(Obs::Envelope(_))) }
+pub open spec fn ph_no_pending_run_err<E>(m: Mon<E>) -> bool { m.bad || !(m.ph matches Ph::FiredI(Err(_))) }
+pub open spec fn ph_not_mid_idle<E>(m: Mon<E>) -> bool { m.bad || !(m.ph is Ran) }
+pub open spec fn at_head<E>(m: Mon<E>) -> bool {
+    m.bad || (m.ph is Head || m.ph is CM || m.ph is CMI || m.ph matches Ph::FiredI(Ok(_)))
+}
+/// idle_enabled is exactly "on_run has not returned Ok(false) yet": it is never cleared on Ok(true) (C08: on_run is run
+/// again when the actor is next idle) and always cleared on Ok(false)
+pub open spec fn idle_flag_inv<T: Actor>(actor: T, idle_enabled: bool) -> bool {
+    actor.mon().bad || ((idle_enabled == !actor.mon().idle_off) && (actor.mon().ph is CM ==> !idle_enabled))
+}
+pub open spec fn sel_post_b0<T: Actor>(actor: T,
+    out: Out3<Option<ControlSignal>, Option<MailboxMessage<T>>, core::result::Result<bool, T::Error>>) -> bool {
+    actor.mon().bad || (out matches Out3::B0(v) ==> actor.mon().ph == Ph::<T::Error>::FiredC(vx_obs(&v)))
+}
+pub open spec fn sel_post_b1<T: Actor>(actor: T,
+    out: Out3<Option<ControlSignal>, Option<MailboxMessage<T>>, core::result::Result<bool, T::Error>>) -> bool {
+    actor.mon().bad || (out matches Out3::B1(v) ==> actor.mon().ph == Ph::<T::Error>::FiredM(vx_obs(&v)))
+}
+pub open spec fn sel_post_b1_fits<T: Actor>(actor: T,
+    out: Out3<Option<ControlSignal>, Option<MailboxMessage<T>>, core::result::Result<bool, T::Error>>) -> bool {
+    out matches Out3::B1(Some(m)) ==> m.fits(actor.mon().mbx)
+}
+pub open spec fn sel_post_b2<T: Actor>(actor: T,
+    out: Out3<Option<ControlSignal>, Option<MailboxMessage<T>>, core::result::Result<bool, T::Error>>) -> bool {
+    actor.mon().bad || (out matches Out3::B2(v) ==> actor.mon().ph == Ph::<T::Error>::FiredI(v))
 }
 pub open spec fn mmon_idle(w: World) -> bool { !w.mmon().bad && w.mmon().ph is Idle }
 
